@@ -69,11 +69,57 @@ def run_seed(args):
     shutil.rmtree(tmp, ignore_errors=True)
 
 
+def load_seeded(pid):
+  """Independently produced breaking changes kept under /verif/seeded/<pid><x>/."""
+  import glob
+  import json
+  root = os.path.join(os.path.dirname(os.path.dirname(os.path.abspath(__file__))), 'seeded')
+  out = []
+  for d in sorted(glob.glob(os.path.join(root, pid + '?'))):
+    try:
+      meta = json.load(open(os.path.join(d, 'meta.json')))
+    except Exception:
+      continue
+    now = meta.get('checks_that_report_it_now', {}).get(pid, {})
+    if now.get('exit') != 1:
+      continue   # recorded miss (documented in DESIGN.md), not part of the self-test
+    out.append(dict(name='seeded/' + os.path.basename(d), patch=os.path.join(d, 'patch.diff'), rules=now.get('rules', [])))
+  return out
+
+
+def run_seeded(args):
+  pid, item, repo = args
+  import subprocess
+  from .report import run_property
+  src = os.path.join(repo or REPO, 'gin')
+  tmp = tempfile.mkdtemp(prefix='ginsa_seeded_')
+  try:
+    shutil.copytree(src, os.path.join(tmp, 'gin'), ignore=shutil.ignore_patterns('__pycache__'))
+    r = subprocess.run(['patch', '-p1', '-s', '-f', '-d', tmp, '-i', item['patch']], capture_output=True, text=True)
+    if r.returncode != 0:
+      return dict(name=item['name'], status='skipped', detail='patch does not apply to the current tree')
+    code, obs, out = run_property(pid, 'quick', 0, tmp, write=False, quiet=True)
+    if code == 2:
+      return dict(name=item['name'], status='analysis-error', detail=out[-1][:300] if out else '')
+    bad = sorted({o.rule for o in obs if not o.ok})
+    if code == 1:
+      return dict(name=item['name'], status='reported', rule=','.join(bad)[:200], detail='')
+    return dict(name=item['name'], status='MISSED', rule=','.join(item['rules']), detail='no violation reported')
+  finally:
+    shutil.rmtree(tmp, ignore_errors=True)
+
+
 def selftest(pid, repo=None, jobs=None):
   seeds = load_seeds(pid)
+  seeded = load_seeded(pid)
+  if seeded:
+    with concurrent.futures.ProcessPoolExecutor(max_workers=min(16, len(seeded))) as ex:
+      seeded_results = list(ex.map(run_seeded, [(pid, s, repo) for s in seeded]))
+  else:
+    seeded_results = []
   if not seeds:
-    return dict(seeds=0, results=[])
+    return dict(seeds=len(seeded), results=seeded_results)
   jobs = jobs or min(16, len(seeds))
   with concurrent.futures.ProcessPoolExecutor(max_workers=jobs) as ex:
     results = list(ex.map(run_seed, [(pid, s, repo) for s in seeds]))
-  return dict(seeds=len(seeds), results=results)
+  return dict(seeds=len(seeds) + len(seeded), results=results + seeded_results)
